@@ -20,3 +20,8 @@ import Solvor.Lp.Theorems
 #print axioms Solvor.Lp.certifies_sound
 #print axioms Solvor.Lp.chkObjAt_iff
 #print axioms Solvor.Lp.binary_tightening_sound
+#print axioms Solvor.Lp.nodeCheck_sound
+#print axioms Solvor.Lp.bnb_mirror_refines
+#print axioms Solvor.Lp.bnb_mirror_sound
+#print axioms Solvor.Lp.solveMilp_sound
+#print axioms Solvor.Lp.tighten_justified
